@@ -1,6 +1,10 @@
 import JSight.Validate
 import JSight.ValidateP
 import JSight.ValidateNProofs
+import JSight.E2EThm
+import JSight.E2EKinds
+import JSight.CommentExamples
+import JSight.LoaderTreeExamples
 /-!
 # C01 — Validate accepts exactly the documents shaped like the schema's EXAMPLE
 
@@ -117,5 +121,186 @@ example : V.validate (.obj [("a", true, .lit .flt false), ("b", false, .arr [.li
     (.obj [("b", .arr [.lit .null, .lit .str]), ("a", .lit .int)]) = true := by decide +kernel
 example : V.validate (.obj [("a", true, .lit .flt false)]) (.obj []) = false := by decide +kernel
 example : V.validate (.arr []) (.arr [.lit .int]) = false := by decide +kernel
+
+/-! ## C01 on TEXTS: schema text + document text ↦ verdict, with no abstract schema in the trusted base
+
+`E2E.validateText root types doc opt` is the whole pipeline as models of the code: schema scanner model → loader model
+(`Loader`, rule values kept) → `Compile` (constraint constructors, `CompileBasic`, `CheckRootSchema`, `CheckRecursion`,
+validator schema) → JSON scanner model → the validator machine `VK` fed with the lexical events; tied to the real
+`AddType` / `Check` / `Validate` by the harness command `e2e-text`, which sends the TEXTS only.
+
+The theorem: the schema text is the text of a plain-JSON value `t` (`Lay.BTree`: every token a token of the schema
+scanner, any white-space layout incl. LF / CR / CRLF, user comments `#` / `###` wherever the scanner takes them, an
+unterminated last comment `fin`), keys of one object pairwise distinct after decoding, every scalar token of a
+guessable kind; the document text is the text of a JSON value `d` (`VPos.T UInt8`: tokens of the JSON scanner, any
+white space around every token, `ws0` / `ws1` around the document). Then the pipeline answers `acc` exactly when the
+document (layout removed, keys decoded: `E2E.docOf d`) has the SHAPE of the schema's value (`E2E.schemaOf opt t.value`:
+every scalar a literal of its kind, keys decoded, every key required unless the option is set) — `VN.shape`, the
+specification of `C01_with_alternatives`, with the kind matrix on document tokens (`E2E.kindOKTok`: the token's kind is
+the example's, or an integer where the example is a float) — and `rej` otherwise: never a schema error, a document
+error or `unsupported`.
+Composition of `C13_text_with_comments_loads_value` (C06 / C16 on the schema side), `E2E.loadSchema_plain`
+(`Compile` on rule-free tables), `C06_events_of_tree` and `E2E.docEvs_tree` (document side), `C03_key_shortcuts`
+(the validator machine = its specification) and `E2E.shape_plain`. -/
+
+theorem C01_text_level (opt : Bool) (t : Lay.BTree) (hv : t.Valid) (hk : t.value.KeysNodup)
+    (hg : E2E.guessable t.value = true) (w0 w1 : List Lay.LI) (h0 : Lay.ValidL w0) (h1 : Lay.ValidL w1)
+    (fin : List UInt8) (hf : Lay.IsFin fin)
+    (d : VPos.T UInt8) (hd : (VPos.toJA JsonScan.classify d).Valid) (ws0 ws1 : List UInt8)
+    (hw0 : JsonScan.IsWs (ws0.map JsonScan.classify)) (hw1 : JsonScan.IsWs (ws1.map JsonScan.classify)) :
+    E2E.validateText (Lay.docTextF w0 t w1 fin) [] (ws0 ++ (d.render VPos.byteSym ++ ws1)) opt
+      = if VN.shape E2E.kindOKTok (E2E.schemaOf opt t.value) (E2E.docOf d) then .acc else .rej :=
+  E2E.text_level opt t hv hk hg w0 w1 h0 h1 fin hf d hd ws0 ws1 hw0 hw1
+
+/-- the same with the specification of `C01_validate_iff_shape` itself (`V.shape` on concrete kinds), for documents
+whose scalar tokens all have a kind (every RFC 8259 token but the numerals `0e1`, `-0E5`, …: known finding
+K-C10-zeroexp, `C10_total`) -/
+theorem C01_text_level_kinds (opt : Bool) (t : Lay.BTree) (hv : t.Valid) (hk : t.value.KeysNodup)
+    (hg : E2E.guessable t.value = true) (w0 w1 : List Lay.LI) (h0 : Lay.ValidL w0) (h1 : Lay.ValidL w1)
+    (fin : List UInt8) (hf : Lay.IsFin fin)
+    (d : VPos.T UInt8) (hd : (VPos.toJA JsonScan.classify d).Valid) (hdg : E2E.docGuessable (E2E.docOf d) = true)
+    (ws0 ws1 : List UInt8)
+    (hw0 : JsonScan.IsWs (ws0.map JsonScan.classify)) (hw1 : JsonScan.IsWs (ws1.map JsonScan.classify)) :
+    E2E.validateText (Lay.docTextF w0 t w1 fin) [] (ws0 ++ (d.render VPos.byteSym ++ ws1)) opt
+      = if V.shape (E2E.schemaV opt t.value) (E2E.toVJ (E2E.docOf d)) then .acc else .rej := by
+  rw [E2E.text_level opt t hv hk hg w0 w1 h0 h1 fin hf d hd ws0 ws1 hw0 hw1,
+    E2E.kinds_value opt (E2E.docOf d) hdg t.value]
+
+/-- consequence (C13 at the level of verdicts): the outcome depends on the schema text only through its VALUE and on
+the document text only through the document it denotes — two spellings of the schema (layout, line ends, user
+comments) and two spellings of the document (white space) give the same outcome -/
+theorem C01_text_level_surface_invariant (opt : Bool) (t t' : Lay.BTree) (hv : t.Valid) (hv' : t'.Valid)
+    (hs : t.value = t'.value) (hk : t.value.KeysNodup) (hg : E2E.guessable t.value = true)
+    (w0 w1 w0' w1' : List Lay.LI) (h0 : Lay.ValidL w0) (h1 : Lay.ValidL w1) (h0' : Lay.ValidL w0') (h1' : Lay.ValidL w1')
+    (fin fin' : List UInt8) (hf : Lay.IsFin fin) (hf' : Lay.IsFin fin')
+    (d d' : VPos.T UInt8) (hd : (VPos.toJA JsonScan.classify d).Valid) (hd' : (VPos.toJA JsonScan.classify d').Valid)
+    (hdd : E2E.docOf d = E2E.docOf d') (ws0 ws1 ws0' ws1' : List UInt8)
+    (hw0 : JsonScan.IsWs (ws0.map JsonScan.classify)) (hw1 : JsonScan.IsWs (ws1.map JsonScan.classify))
+    (hw0' : JsonScan.IsWs (ws0'.map JsonScan.classify)) (hw1' : JsonScan.IsWs (ws1'.map JsonScan.classify)) :
+    E2E.validateText (Lay.docTextF w0 t w1 fin) [] (ws0 ++ (d.render VPos.byteSym ++ ws1)) opt
+      = E2E.validateText (Lay.docTextF w0' t' w1' fin') [] (ws0' ++ (d'.render VPos.byteSym ++ ws1')) opt := by
+  rw [C01_text_level opt t hv hk hg w0 w1 h0 h1 fin hf d hd ws0 ws1 hw0 hw1,
+    C01_text_level opt t' hv' (hs ▸ hk) (hs ▸ hg) w0' w1' h0' h1' fin' hf' d' hd' ws0' ws1' hw0' hw1', hs, hdd]
+
+/-- the two halves, separately. Schema side: scanner model + loader model + `Compile` on the text of a plain-JSON
+value yield the compiled tree of the value, whose validator schema is `E2E.vkOf` — a function of the VALUE only -/
+theorem C01_text_schema_half (opt : Bool) (t : Lay.BTree) (hv : t.Valid) (hk : t.value.KeysNodup)
+    (hg : E2E.guessable t.value = true) (w0 w1 : List Lay.LI) (h0 : Lay.ValidL w0) (h1 : Lay.ValidL w1)
+    (fin : List UInt8) (hf : Lay.IsFin fin) :
+    E2E.loadSchema (Lay.docTextF w0 t w1 fin) opt = .ok (some (E2E.cnOf opt t.value)) ∧
+    Compile.check (E2E.cnOf opt t.value) [] = .ok () ∧
+    Compile.toVK "root" (E2E.cnOf opt t.value) = E2E.vkOf opt t.value ∧
+    Compile.envOf (E2E.cnOf opt t.value) [] = [] := by
+  obtain ⟨st, hl, hr, ht⟩ := Lay.load_comments t hv hk w0 w1 h0 h1 fin hf
+  exact ⟨E2E.loadSchema_plain _ opt st t.value hl hr ht hg, E2E.check_plain opt t.value hg,
+    E2E.toVK_plain opt t.value "root", E2E.envOf_plain opt t.value⟩
+
+/-- document side: the JSON scanner model on the text of a document tree delivers — read as the validator reads
+lexemes — the event stream of the document without layout, and no error -/
+theorem C01_text_document_half (d : VPos.T UInt8) (hd : (VPos.toJA JsonScan.classify d).Valid) (ws0 ws1 : List UInt8)
+    (hw0 : JsonScan.IsWs (ws0.map JsonScan.classify)) (hw1 : JsonScan.IsWs (ws1.map JsonScan.classify)) :
+    ∃ evs, E2E.eventsP (ws0 ++ (d.render VPos.byteSym ++ ws1)) = (evs, none) ∧
+      E2E.docEvs (ws0 ++ (d.render VPos.byteSym ++ ws1)) evs = VN.evs (E2E.docOf d) :=
+  E2E.doc_events d hd ws0 ws1 hw0 hw1
+
+/-- validator side: on such schemas the specification of the validator machine is the C01 shape -/
+theorem C01_text_validator_half (opt : Bool) (kOK : String → String → Bool) (v : Lay.JV) (dd : VN.J (List UInt8)) :
+    VK.validateT ([] : VK.Env Compile.Lit) Compile.litOK kOK (E2E.vkOf opt v) dd
+      = VN.shape E2E.kindOKTok (E2E.schemaOf opt v) dd := by
+  rw [VK.C03_key_shortcuts, E2E.shape_plain]
+
+/-! Non-vacuity: the schema text `{ # first⏎#####"a": [1,#␍⏎true ### x⏎ y ###⏎]#c⏎}⏎# end` (user comments, CR LF, an
+unterminated last comment; its value is `{"a": [1, true]}`) against the documents ` {"a" : [7, false , true]}⏎`
+(accepted: the last example element repeats) and `{"a":["x"]}` (rejected). -/
+section nonvacuity
+open JsonScan
+
+def exDocAcc : VPos.T UInt8 :=
+  .obj [] [([], [34, 97, 34], [32], [32],
+    .arr [] [([], .scalar [55], []), ([32], .scalar [102, 97, 108, 115, 101], [32]), ([32], .scalar [116, 114, 117, 101], [])],
+    [])]
+def exDocRej : VPos.T UInt8 := .obj [] [([], [34, 97, 34], [], [], .arr [] [([], .scalar [34, 120, 34], [])], [])]
+
+theorem exDocAcc_valid : (VPos.toJA classify exDocAcc).Valid := by
+  have e : VPos.toJA classify exDocAcc = .obj [] [([], [.quote, .la, .quote], [.sp], [.sp],
+      .arr [] [([], .scalar [.d19], []), ([.sp], .scalar [.lf, .la, .ll, .ls, .le], [.sp]),
+        ([.sp], .scalar [.lt, .lr, .lu, .le], [])], [])] := by
+    simp [exDocAcc, VPos.toJA, VPos.toJAItems, VPos.toJAMembers]; decide
+  rw [e]
+  have k1 : IsKey [.quote, .la, .quote] := string_isKey [.la] (.plain _ _ rfl .nil)
+  have n1 : IsScalar [.d19] := ⟨.d19, [], .d1, false, .d1, rfl, rfl, rfl, rfl⟩
+  simp [JA.Valid, ValidMembers, ValidItems, IsWs, Cls.isWs, k1, n1, true_isScalar, false_isScalar]
+
+theorem exDocRej_valid : (VPos.toJA classify exDocRej).Valid := by
+  have e : VPos.toJA classify exDocRej = .obj [] [([], [.quote, .la, .quote], [], [],
+      .arr [] [([], .scalar [.quote, .other, .quote], [])], [])] := by
+    simp [exDocRej, VPos.toJA, VPos.toJAItems, VPos.toJAMembers]; decide
+  rw [e]
+  have k1 : IsKey [.quote, .la, .quote] := string_isKey [.la] (.plain _ _ rfl .nil)
+  have s1 : IsScalar [.quote, .other, .quote] := string_isScalar [.other] (.plain _ _ rfl .nil)
+  simp [JA.Valid, ValidMembers, ValidItems, IsWs, k1, s1]
+
+example : E2E.validateText (Lay.docTextF [] Lay.Ex.tC [.blank 10] Lay.Ex.cFin) []
+    ([32] ++ (exDocAcc.render VPos.byteSym ++ [10])) false = .acc := by
+  rw [C01_text_level_kinds false Lay.Ex.tC Lay.Ex.tC_valid (Lay.Ex.tC_value ▸ Lay.Ex.keys_ok) (by decide +kernel) []
+    [.blank 10] (by simp [Lay.ValidL]) (by simp [Lay.ValidL, Lay.LI.Valid, Lay.isBlankB]) Lay.Ex.cFin Lay.Ex.cFin_ok
+    exDocAcc exDocAcc_valid (by decide +kernel) [32] [10] (by simp [IsWs, classify, Cls.isWs])
+    (by simp [IsWs, classify, Cls.isWs])]
+  have h : V.shape (E2E.schemaV false Lay.Ex.tC.value) (E2E.toVJ (E2E.docOf exDocAcc)) = true := by decide +kernel
+  rw [if_pos h]
+
+example : E2E.validateText (Lay.docTextF [] Lay.Ex.tC [.blank 10] Lay.Ex.cFin) []
+    ([] ++ (exDocRej.render VPos.byteSym ++ [])) false = .rej := by
+  rw [C01_text_level_kinds false Lay.Ex.tC Lay.Ex.tC_valid (Lay.Ex.tC_value ▸ Lay.Ex.keys_ok) (by decide +kernel) []
+    [.blank 10] (by simp [Lay.ValidL]) (by simp [Lay.ValidL, Lay.LI.Valid, Lay.isBlankB]) Lay.Ex.cFin Lay.Ex.cFin_ok
+    exDocRej exDocRej_valid (by decide +kernel) [] [] (by simp [IsWs]) (by simp [IsWs])]
+  have h : V.shape (E2E.schemaV false Lay.Ex.tC.value) (E2E.toVJ (E2E.docOf exDocRej)) = false := by decide +kernel
+  rw [h]
+  rfl
+
+example : exDocAcc.render VPos.byteSym
+    = [123, 34, 97, 34, 32, 58, 32, 91, 55, 44, 32, 102, 97, 108, 115, 101, 32, 44, 32, 116, 114, 117, 101, 93, 125] := by
+  decide +kernel
+example : E2E.docGuessable (E2E.docOf exDocAcc) = true := by decide +kernel
+
+/-! The hypothesis "keys pairwise distinct after decoding" cannot be dropped: without it the statement is false.
+Witness `{"a":1,"\u0061":2}` (`Loader.dupBytes`): the loader refuses it with error 402 (`C16_text_duplicate_key`), so
+`validateText` answers a schema error for every document, never `acc` / `rej`. -/
+
+/-- `C01_text_level` without the two side conditions on the schema value -/
+def C01_text_level_unrestricted : Prop :=
+  ∀ (opt : Bool) (t : Lay.BTree), t.Valid → ∀ (w0 w1 : List Lay.LI), Lay.ValidL w0 → Lay.ValidL w1 →
+    ∀ (fin : List UInt8), Lay.IsFin fin → ∀ (d : VPos.T UInt8), (VPos.toJA JsonScan.classify d).Valid →
+    ∀ (ws0 ws1 : List UInt8), JsonScan.IsWs (ws0.map JsonScan.classify) → JsonScan.IsWs (ws1.map JsonScan.classify) →
+    E2E.validateText (Lay.docTextF w0 t w1 fin) [] (ws0 ++ (d.render VPos.byteSym ++ ws1)) opt
+      = if VN.shape E2E.kindOKTok (E2E.schemaOf opt t.value) (E2E.docOf d) then .acc else .rej
+
+def tDup : Lay.BTree :=
+  .obj [] [([], [34, 97, 34], [], [], .scalar [49], []),
+           ([], [34, 92, 117, 48, 48, 54, 49, 34], [], [], .scalar [50], [])]
+
+theorem tDup_text : Lay.docTextF [] tDup [] [] = Loader.dupBytes := by decide
+
+theorem tDup_valid : tDup.Valid := by
+  have k2 : SchemaScan.IsKey (([34, 92, 117, 48, 48, 54, 49, 34] : List UInt8).map SchemaScan.classify) :=
+    SchemaScan.string_isKey [.bslash, .lu, .zero, .zero, .d19, .d19] (.uni _ _ _ _ _ rfl rfl rfl rfl .nil)
+  have n2 : SchemaScan.IsScalar (([50] : List UInt8).map SchemaScan.classify) := ⟨.d19, [], .d1, false, .d1, rfl, rfl, rfl, rfl⟩
+  refine ⟨by simp [Lay.ValidL], by simp [Lay.ValidL], Lay.Ex.key_ok, ⟨by simp [Lay.ValidL], by simp [Lay.PlainL]⟩,
+    ⟨by simp [Lay.ValidL], by simp [Lay.PlainL]⟩, Lay.Ex.one_ok, by simp [Lay.ValidL], by simp [Lay.ValidL], k2,
+    ⟨by simp [Lay.ValidL], by simp [Lay.PlainL]⟩, ⟨by simp [Lay.ValidL], by simp [Lay.PlainL]⟩, n2, by simp [Lay.ValidL],
+    trivial⟩
+
+theorem C01_text_level_unrestricted_false : ¬ C01_text_level_unrestricted := by
+  intro h
+  have e := h false tDup tDup_valid [] [] (by simp [Lay.ValidL]) (by simp [Lay.ValidL]) [] (Or.inl rfl) exDocRej
+    exDocRej_valid [] [] (by simp [IsWs]) (by simp [IsWs])
+  rw [tDup_text] at e
+  obtain ⟨h1, h2⟩ := E2E.validateText_of_load_error Loader.dupBytes [] ([] ++ (exDocRej.render VPos.byteSym ++ [])) false _
+    Loader.dup_reported
+  split at e
+  · exact h1 e
+  · exact h2 e
+
+end nonvacuity
 
 end Props.C01
